@@ -1,5 +1,5 @@
 (* C19/Run.v — evaluation of the models on harness cases. *)
-From Relic Require Import Base.Prelude Base.Enc Base.Val Generated.C19_gen C19.Model.
+From Relic Require Import Base.Prelude Base.Enc Base.Val Generated.C19_gen C19.Model C19.Sign.
 
 Definition vattr (v : val) : attr := mkattr (vb (vnth 0 v)) (vb (vnth 1 v)) (vb (vnth 2 v)).
 (* node ::= [0 space tag [attr*] [node*]] | [1 data] | [2 data] | [3 target inst] | [4 data] *)
@@ -62,8 +62,75 @@ Definition run_gen (v : val) : val :=
                                        (vb (vnth 2 v)) (vb (vnth 3 v)) (vb (vnth 4 v)) (vb (vnth 5 v)))
                           (vnode (vnth 6 v)))].
 
+(* ---- signing / verifying pipelines (C19/Sign.v) *)
+Definition attr_val (a : attr) : val := VL [VB (a3_space a); VB (a3_key a); VB (a3_val a)].
+Fixpoint node_val (n : node) : val :=
+  match n with
+  | Elem s t a c => VL [VZ 0; VB s; VB t; VL (map attr_val a); VL (map node_val c)]
+  | CharData d => VL [VZ 1; VB d]
+  | Comment d => VL [VZ 2; VB d]
+  | ProcInst t i => VL [VZ 3; VB t; VB i]
+  | Directive d => VL [VZ 4; VB d]
+  end.
+Definition vframe (v : val) : frame :=
+  Frame (vb (vnth 0 v)) (vb (vnth 1 v)) (map vattr (vl (vnth 2 v))) (map vnode (vl (vnth 3 v))) (map vnode (vl (vnth 4 v))).
+(* [hash keykind ncerts same_key ms rec include_kv include_x509 [kv*] [x509*] digest_text sig_text]; the two texts are the
+   values observed on the implementation (the model never computes a hash or a signature) *)
+Definition vparams (v : val) : sigparams :=
+  SigParams (vz (vnth 0 v)) (vz (vnth 1 v)) (vz (vnth 2 v)) (vbool (vnth 3 v)) (vbool (vnth 4 v)) (vbool (vnth 5 v))
+            (vbool (vnth 6 v)) (vbool (vnth 7 v)) (map vnode (vl (vnth 8 v))) (map vnode (vl (vnth 9 v)))
+            (fun _ => vb (vnth 10 v)) (fun _ => vb (vnth 11 v)).
+Definition vsteps (v : val) : list (bytes * bytes) := map (fun s => qname_of (vb s)) (vl v).
+Definition res_code {A} (r : result A) : Z := match r with Ok _ => 0 | Err e => e | Panic e => 1000 + e end.
+Definition vres_val (r : result vresult) : val :=
+  match r with
+  | Ok x => VL [VZ 0; VZ (vr_hash x); VB (vr_pubtype x); VB (vr_ref_octets x); VB (vr_dv x); VB (vr_si_octets x); VB (vr_sv x);
+                VZs (map Z.of_nat (vr_sigpath x))]
+  | _ => VL [VZ (res_code r)]
+  end.
+
+(* mode 3: xmldsig.Sign.  [params ctx0 [frame*] ps pt pa [child*]]
+   -> [code ref_octets si_octets new_root verify_struct(new_root, sig_steps)] *)
+Definition run_xsign (v : val) : val :=
+  let P := vparams (vnth 0 v) in
+  let ctx0 := vctx (vnth 1 v) in
+  let fs := map vframe (vl (vnth 2 v)) in
+  let ps := vb (vnth 3 v) in let pt := vb (vnth 4 v) in
+  let pa := map vattr (vl (vnth 5 v)) in
+  let ch := map vnode (vl (vnth 6 v)) in
+  match xsign P ctx0 fs ps pt pa ch with
+  | Ok st => let root := out_root fs ps pt pa st in
+             VL [VZ 0; VB (ref_octets st); VB (s_si_octets st); node_val root; vres_val (verify_struct root (sig_steps fs pt))]
+  | r => VL [VZ (res_code r)]
+  end.
+(* mode 4: xmldsig.Verify up to cryptography.  [root [step*]] -> vres_val *)
+Definition run_xverify (v : val) : val := vres_val (verify_struct (vnode (vnth 0 v)) (vsteps (vnth 1 v))).
+(* mode 5: appmanifest.Sign.  [[token subject issuer_hash] params1 params2 manifest_hash root]
+   -> [code ref1 si1 ref2 si2 new_root] ; mode 6: appmanifest.Verify up to cryptography.  [root] -> [code r1 r2] *)
+Definition run_amsign (v : val) : val :=
+  let I := Identity (vb (vnth 0 (vnth 0 v))) (vb (vnth 1 (vnth 0 v))) (vb (vnth 2 (vnth 0 v))) in
+  let mh := vb (vnth 3 v) in
+  match vnode (vnth 4 v) with
+  | Elem rs rt ra ch =>
+      match am_sign I (vparams (vnth 1 v)) (vparams (vnth 2 v)) (fun _ => mh) rs rt ra ch with
+      | Ok o => VL [VZ 0; VB (ref_octets (ao_primary o)); VB (s_si_octets (ao_primary o));
+                    VB (ref_octets (ao_secondary o)); VB (s_si_octets (ao_secondary o)); node_val (ao_root o)]
+      | r => VL [VZ (res_code r)]
+      end
+  | _ => VL [VZ 99]
+  end.
+Definition run_amverify (v : val) : val :=
+  match am_verify_struct (vnode (vnth 0 v)) with
+  | Ok (r1, r2) => VL [VZ 0; vres_val (Ok r1); vres_val (Ok r2)]
+  | r => VL [VZ (res_code r)]
+  end.
+
 Definition run (v : val) : val :=
   let mode := vz (vnth 0 v) in
   if mode =? 0 then run_c14n (vnth 1 v)
   else if mode =? 1 then run_pack (vnth 1 v)
-  else run_gen (vnth 1 v).
+  else if mode =? 2 then run_gen (vnth 1 v)
+  else if mode =? 3 then run_xsign (vnth 1 v)
+  else if mode =? 4 then run_xverify (vnth 1 v)
+  else if mode =? 5 then run_amsign (vnth 1 v)
+  else run_amverify (vnth 1 v).
